@@ -218,8 +218,8 @@ def field_replacements(ctx, rng, w, layer, wire):
 def part_wrap(ctx):
     rng = ctx.rng
     names = all_body_class_names()
-    per_class = ctx.scale(5, 50)
-    flip_budget = ctx.scale(30, 300)
+    per_class = ctx.scale(8, 50)
+    flip_budget = ctx.scale(50, 300)
     flips_done = 0
     idx = 0
     for rnd in range(per_class):
